@@ -43,7 +43,13 @@ def run(ck, F):
     R4 = ck.rule('C18.indentation-balanced', 'after printing a complete declaration or statement the pending indentation is back '
                  'where it started, on every path (nested statements assumed balanced: induction)', floor=200)
     n_runs = 0
-    indent_fld = ('fld', ppgraph.PRINTER, 'pending_indentation')
+    # the indentation counter: the int member that Printer::indent(int) adjusts
+    ind = [f for f in F.fns_in('ipr::Printer') if f['name'] == 'indent' and len(f['params']) == 1]
+    written = {strip_casts(n.get('l') or {}).get('name') for f in ind for n in walk(f.get('body')) if n.get('k') == 'binop' and n.get('op') in ('+=', '=', '-=')}
+    written.discard(None)
+    if len(written) != 1:
+        raise AnalysisBroken(f'Printer::indent(int) adjusts {sorted(written)}: one indentation counter expected')
+    indent_fld = ('fld', ppgraph.PRINTER, written.pop())
     classes = 0
     variants = []
     for cls, ifc, st, obj, prov in nodes:
